@@ -332,13 +332,18 @@ def r3_dense_suboffsets(ctx, hugr, file) -> None:
             kinds = set()
             for q in ctx.paths(f"{HQ}.delete_link"):
                 rm = q.find_effect(f"self.{h.name}(_SubPort(E_p, E_k))")
-                absent = q.has_test("except_(StopIteration)", True) is not None or q.has_test(f"next({gen}, None) is not None", False) is not None
+                gen2 = f"(_SubPort({s_}, c0) for c0, c1 in enumerate(self.linked_ports({s_})) if c1 == {d_})"
+                absent = q.has_test("except_(StopIteration)", True) is not None or q.has_test(f"next({gen}, None) is not None", False) is not None \
+                    or q.has_test(f"{d_} in self.linked_ports({s_})", False) is not None or q.has_test(f"next({gen2}, None) is not None", False) is not None
                 if absent:
                     kinds.add("absent")
                     c_ok = c_ok and not rm and q.kind in ("return", "fall")
                 else:
                     kinds.add("present")
-                    c_ok = c_ok and len(rm) == 1 and rm[0][2]["E_p"] == s_ and rm[0][2]["E_k"] in (f"next({gen})", f"next({gen}, None)") and q.kind in ("return", "fall")
+                    rm2 = q.find_effect(f"self.{h.name}(next({gen2}, None))") + q.find_effect(f"self.{h.name}(next({gen2}))")
+                    c_ok = c_ok and q.kind in ("return", "fall") and (
+                        (len(rm) == 1 and rm[0][2]["E_p"] == s_ and rm[0][2]["E_k"] in (f"next({gen})", f"next({gen}, None)"))
+                        or (not rm and len(rm2) == 1 and len(q.find_effect(f"self.{h.name}(ANY_)")) == 1))
             c_ok = c_ok and kinds == {"absent", "present"}
             ok = (a is not None and [a["L_src"], a["L_dst"]] == [x.arg for x in dl.args.args[1:3]]) or b is not None or c_ok
             ctx.check(ok, "C04.R3", "Hugr.delete_link addresses exactly one link", file, dl.lineno,
@@ -458,6 +463,16 @@ def r6_r7_tables(ctx, hugr, file, only=None) -> None:
             if any(f.rule == "C04.R5" and f.construct == f"Hugr.{name}: pure" for f in ctx.findings):
                 continue        # already reported as an impure query
             ctx.broken(f"Hugr.{name} not normalisable: {e}")
+        if got != want:
+            # the canonical body (unknown private helpers seen through, idioms normalised) may say the same in one expression
+            try:
+                cb = ctx.cfn(f"{HQ}.{name}").body
+                if len(cb) == 1 and isinstance(cb[0], ast.Return) and cb[0].value is not None:
+                    got2 = _expr_no_inline(nf, hugr, u(cb[0].value), m)
+                    if got2 == want:
+                        got = got2
+            except Opaque:
+                pass
         ctx.check(got == want, "C04.R7", f"Hugr.{name}", file, m.lineno, f"Hugr.{name} must be `{expr}` ({why})", m, expected=show(want), found=show(got), detail=show(got)[:160])
     if only is not None:
         return
